@@ -156,6 +156,31 @@ def install_number_abstraction():
         return real(n, n_type)
     format_number._verif_wrapper = True
     machine.format_number = format_number
+    _patch_symbolic_str_add()
+
+
+def _patch_symbolic_str_add():
+    """CrossHair's LazyIntSymbolicStr.__add__ raises TypeError for a
+    non-str right operand instead of returning NotImplemented, so
+    `symbolic_str + Rope` never reached Rope.__radd__ (natively
+    `'' + Rope` does).  Found as a non-replaying counterexample
+    (INPUT n$ answered '' followed by PRINT n$; k%)."""
+    try:
+        from crosshair.libimpl.builtinslib import LazyIntSymbolicStr
+    except ImportError:
+        return
+    orig = LazyIntSymbolicStr.__add__
+    if getattr(orig, '_verif_wrapper', False):
+        return
+
+    def __add__(self, other):
+        with NoTracing():
+            rope = isinstance(other, (Rope, NumTok))
+        if rope:
+            return NotImplemented
+        return orig(self, other)
+    __add__._verif_wrapper = True
+    LazyIntSymbolicStr.__add__ = __add__
 
 
 def set_abstract(flag):
